@@ -30,7 +30,7 @@ def itemsUpos : List Item → List Nat
 def itemsCompl : List Item → Compl
   | [] => .normal
   | .stmt s :: r => (s.compl []).seq (itemsCompl r)
-  | .decl kids :: r => Compl.seq { n := true, t := kids.mayThrow } (itemsCompl r)
+  | .decl kids :: r => kids.compl.seq (itemsCompl r)
 
 def visitItem (m : Bool) : Item → A → A
   | .stmt s, a => if m then visitStmt s a else visitStmtOrBlock s a
@@ -71,9 +71,9 @@ theorem itemsReach_mem : ∀ (items : List Item) (q : Nat), itemsReach items q =
     · exact Or.inl (s.reach_mem q h)
     · exact Or.inr (itemsReach_mem r q h)
   | .decl k :: r, q, h => by
-    simp only [itemsReach, Bool.or_eq_true] at h
+    simp only [itemsReach, Bool.or_eq_true, Bool.and_eq_true] at h
     simp only [itemsPositions, Item.positions, List.mem_append]
-    exact h.imp (k.flowReach_mem q) (itemsReach_mem r q)
+    exact h.imp (k.flowReach_mem q) (fun h => itemsReach_mem r q h.2)
 
 theorem itemsInner_mem : ∀ (items : List Item) (q : Nat), itemsInner items q = true → q ∈ itemsPositions items
   | [], q, h => by simp [itemsInner] at h
@@ -130,24 +130,12 @@ theorem visitItems_ok (m : Bool) : ∀ (items : List Item) (live : Bool) (a : A)
   | .decl k :: r, live, a, hf, h => by
     have hf' : k.okF = true ∧ itemsInF r = true := by simpa [itemsInF, Item.inF] using hf
     simp only [itemsPositions, Item.positions] at h
-    have hnd' := List.nodup_append.mp h.nodup
-    have hdisj : ∀ p, p ∈ k.positions → p ∈ itemsPositions r → False := fun p h1 h2 => hnd'.2.2 p h1 p h2 rfl
-    have hk := visitKids_ok k a hf'.1 ⟨fun p hp => h.fresh p (List.mem_append.mpr (Or.inl hp)), hnd'.1⟩
-    have h1 := kidL (live := live) hk h.hs
-    have hvi : visitItem m (.decl k) a = visitKids k a := rfl
-    rw [← hvi] at h1
-    have hpre2 : Pre (live && true) (itemsPositions r) (visitItem m (.decl k) a) := by
-      refine ⟨fun hs => by simpa using h1.p1 hs, ?_, hnd'.2.1⟩
-      intro p hp
-      rw [endAt_eq_of_info_eq (h1.frame p (fun hps => hdisj p hps hp))]
-      exact h.fresh p (List.mem_append.mpr (Or.inr hp))
-    have h2 := visitItems_ok m r _ _ hf'.2 hpre2
-    have := seq_ok live k.upos (itemsUpos r) k.positions (itemsPositions r) { n := true, t := k.mayThrow } (itemsCompl r)
-      (fun _ => false) (itemsReach r) k.inner (itemsInner r) a _ _ h1 h2 hdisj (Kids.upos_sub k) (itemsUpos_sub r)
-      (fun _ _ => rfl) (itemsReach_false r) (Kids.inner_false k) (itemsInner_false r)
+    have := seqL live _ _ _ _ _ _ _ _ _ _ a _ _ h (visitKids_okL k live a hf'.1 h.left)
+      (fun h2 => visitItems_ok m r _ _ hf'.2 h2) (Kids.upos_sub k) (itemsUpos_sub r)
+      (Kids.flowReach_false k) (itemsReach_false r) (Kids.inner_false k) (itemsInner_false r)
     simp only [visitItems, itemsUpos, itemsPositions, Item.upos, Item.positions, itemsCompl]
     refine ⟨this.p1, this.p2, this.p2c, this.monoB, this.monoC, this.p2l, ?_, ?_, this.frame, this.monoT, this.pT⟩
-    · intro p hp hu; simpa [itemsReach, Kids.flowReach_okF k p hf'.1] using this.p3 p hp hu
+    · intro p hp hu; simpa [itemsReach] using this.p3 p hp hu
     · intro p hp hu; simpa [itemsInner] using this.p3i p hp hu
 
 theorem flagged_items (info : Info) : ∀ (items : List Item), FlagSub info (items.flatMap fun
